@@ -380,6 +380,13 @@ impl<'a, A: AcceptableMasterList, C: Clock, F: Filter, R: Rng, S: PtpInstanceSta
 
     /// Handle the announce receipt timer going off
     pub fn handle_announce_receipt_timer(&mut self) -> PortActionIterator<'_> {
+        // A port disabled because of a peer delay fault only leaves the faulty
+        // state once a clean peer delay exchange has completed; the announce
+        // receipt timeout does not apply to it (IEEE 1588-2019 figure 30).
+        if matches!(self.port_state, PortState::Faulty) {
+            return actions![];
+        }
+
         if self
             .instance_state
             .with_ref(|state| state.default_ds.slave_only)
